@@ -102,6 +102,8 @@ def generate(prop, seed, tier):
         buffer_size=rng.choice([8192, 8192, 512, 64]),
         mode=rng.choice(["w", "wb"]),
         errno=rng.choice([errno.EIO, errno.ENOSPC, errno.EACCES]),
+        name=rng.choice(["t", "t", "result.pkl", "result.json", "data.v2.bin", ".hidden", "a b.txt"]),
+        sibling=rng.random() < 0.3,
     )
 
 
@@ -124,7 +126,7 @@ def _prepare(d, desc):
     """Reset directory d to the prior state; returns target path object."""
     for name in os.listdir(d):
         os.remove(os.path.join(d, name))
-    target = os.path.join(d, "t")
+    target = os.path.join(d, desc.get("name", "t"))
     if desc["prior"] != "absent":
         with open(target, "wb") as f:
             f.write(b"OLD-VALUE-" * 7)
@@ -176,6 +178,9 @@ def execute(prop, desc):
         # oracle on the unfaulted (possibly serialisation-failing) write itself
         viol.extend(_judge(desc, d, str(path), old_bytes, new_bytes, raised=ref_exc, died=False,
                            where=("none", 0, ops), expect_new=ref_exc is None))
+        # two stores with the same stem in one directory, one write in flight while the other happens
+        if not viol and desc.get("sibling"):
+            viol.extend(_sibling_scenario(desc, d, value, kwargs, new_bytes, ref_exc))
         only = desc.get("only_fault")
         todo = []
         for k in range(1, M + 1):
@@ -244,6 +249,66 @@ def execute(prop, desc):
     if viol and "pin" in locals():
         res["pin"] = pin
     return res
+
+
+def _sibling_scenario(desc, d, value, kwargs, new_bytes, ref_exc):
+    from uberjob.stores import staged_write
+
+    out = []
+    for outer_is_sibling in (True, False):
+        path = _prepare(d, dict(desc, prior="absent"))
+        base = os.path.basename(str(path))
+        stem = base.rsplit(".", 1)[0] if "." in base.strip(".") else base
+        ext = ".txt" if not base.endswith(".txt") else ".dat"
+        sib = os.path.join(os.path.dirname(str(path)), stem + ext)
+        sib_path = pathlib.Path(sib) if desc["path_type"] == "pathlib" else sib
+        fs.install(fs.FaultPlan(None, desc["buffer_size"]))
+        inner_exc = outer_exc = None
+        try:
+            try:
+                if outer_is_sibling:
+                    with staged_write(sib_path, "w") as g:
+                        g.write("SIBLING-PART-1;")
+                        try:
+                            do_write(desc, path, value, kwargs)
+                        except Exception as e:
+                            inner_exc = e
+                        g.write("SIBLING-PART-2")
+                else:
+                    # the write under test is the outer one: only possible for the helper kinds
+                    if desc["kind"] != "staged_write":
+                        continue
+                    with staged_write(path, desc["mode"]) as f:
+                        f.write(value[0])
+                        with staged_write(sib_path, "w") as g:
+                            g.write("SIBLING-PART-1;SIBLING-PART-2")
+                        for c in value[1:]:
+                            f.write(c)
+            except Exception as e:
+                outer_exc = e
+        finally:
+            fs.uninstall()
+        names = _listing(d)
+        where = f"sibling stores {os.path.basename(str(path))!r} and {os.path.basename(sib)!r} ({desc['path_type']} paths), " \
+                f"{'sibling write in flight around the write under test' if outer_is_sibling else 'sibling written inside'}"
+        if outer_exc is not None and not (desc["bad"] and not outer_is_sibling):
+            out.append(V("sibling-write-failed", f"{where}: the enclosing write failed with {outer_exc!r}"))
+            return out
+        if inner_exc is not None and ref_exc is None:
+            out.append(V("sibling-write-failed", f"{where}: the inner write failed with {inner_exc!r}"))
+            return out
+        if outer_is_sibling or not desc["bad"]:
+            if _read(sib) != b"SIBLING-PART-1;SIBLING-PART-2":
+                out.append(V("sibling-corrupted", f"{where}: the sibling's file holds {_read(sib)!r:.80}"))
+                return out
+        if ref_exc is None and _read(str(path)) != new_bytes:
+            out.append(V("sibling-corrupted", f"{where}: the target holds {len(_read(str(path)) or b'')} bytes, expected "
+                                              f"{len(new_bytes)}"))
+            return out
+        if [n for n in names if n.endswith(".STAGING")]:
+            out.append(V("staging-left-behind", f"{where}: staging files left: {names}"))
+            return out
+    return out
 
 
 def _judge(desc, d, path, old_bytes, new_bytes, *, raised, died, where, expect_new):
